@@ -252,8 +252,9 @@ def stan_box(warm, post, init, term, base, thin):
 _BUILDER_CACHE = {}
 
 
-def builder_chunk(configs):
-    """The JIT chunk length EngineBuilder.build() chose for this schedule."""
+def builder_chunk(configs, as_iterable="list"):
+    """The JIT chunk length EngineBuilder.build() chose for this schedule.  as_iterable: how the schedule is handed to
+    set_epochs (its signature takes any iterable): "list", "tuple", "generator", "iter"."""
     import jax.numpy as jnp
 
     import liesel.goose as gs
@@ -264,6 +265,7 @@ def builder_chunk(configs):
     b.set_model(gs.DictInterface(lambda s: -0.5 * s["x"] ** 2))
     b.set_initial_values({"x": jnp.array(0.0)})
     b.add_kernel(NullKernel(["x"]))
-    b.set_epochs(list(configs))
+    cl = list(configs)
+    b.set_epochs({"list": cl, "tuple": tuple(cl), "generator": (c for c in cl), "iter": iter(cl)}[as_iterable])
     eng = b.build()
     return int(getattr(eng, "_jitted_sample_duration"))
